@@ -20,6 +20,7 @@ Base(row) == IF row.k = 1 THEN EmptyCache ELSE cacheM
 Why(row) ==
   CASE row.role = "target" -> C20Why(row.cd, row.env, row.ev)
     [] row.role \in {"seedA", "seedB"} -> SeedWhy(row.ev)
+    [] row.role = "par" -> ParWhy(row.ev)
     [] OTHER -> C19Why(row.cd, row.k, IF row.k > 1 THEN Trace[l-1].cd ELSE row.cd, IF row.k > 1 THEN Trace[l-1].ev ELSE row.ev, Base(row), row.ev)
 \* the ClientSessionCache model follows the recorded cache content (binding of Session!C19Cache's variable)
 CacheStep(row) == IF row.cd.cache = "main" THEN [Base(row) EXCEPT ![row.cd.name] = row.ev.after] ELSE Base(row)
@@ -27,10 +28,18 @@ CacheStep(row) == IF row.cd.cache = "main" THEN [Base(row) EXCEPT ![row.cd.name]
 Ran(ev) == SelectSeq(ObsRes(ev), LAMBDA x : x # "notrun")
 Drifts(row) == row.role = "target" /\ Ran(row.ev) # row.pred0 /\ Ran(row.ev) # row.pred1
 
+\* C18 over the whole history, judged when its last connection is read: the first hellos of any two connections
+\* differ in legacy_session_id, random and key shares
+H1(row) == IF Len(row.ev.hellos) > 0 THEN ParseHello(row.ev.hellos[1]) ELSE BadHello
+LawWhy(row) ==
+  IF row.kind # "C19" \/ row.k # row.n \/ row.n < 2 THEN "ok"
+  ELSE LET bad == { p \in (1..row.n) \X (1..row.n) : p[1] < p[2] /\ FreshWhy(H1(Trace[l - row.n + p[1]]), H1(Trace[l - row.n + p[2]])) # "ok" } IN
+       IF bad = {} THEN "ok"
+       ELSE LET p == CHOOSE p \in bad : TRUE IN FreshWhy(H1(Trace[l - row.n + p[1]]), H1(Trace[l - row.n + p[2]]))
 Good(w) == w = "ok" /\ UNCHANGED rej
 Skip(w) == w # "ok" /\ rej' = rej \cup {<<l, w>>}
 Next == /\ l <= Len(Trace)
-        /\ LET row == Trace[l]  w == Why(row) IN
+        /\ LET row == Trace[l]  w0 == Why(row)  w == IF w0 # "ok" THEN w0 ELSE LawWhy(row) IN
              /\ Good(w) \/ Skip(w)
              /\ cacheM' = CacheStep(row)
              /\ drift' = IF Drifts(row) THEN drift \cup {l} ELSE drift
